@@ -7,7 +7,7 @@
 From Coq Require Import List Arith ZArith Bool Reals.
 From T4V Require Import Base.Scalar C07.Model C07.ProofsAlgebra C07.ProofsComb C07.ProofsMain
   C07.ProofsGeom C07.ProofsExample C07.ProofsDomain C07.ProofsRhp C07.ModelDevelop C07.ProofsDevelop
-  C07.ProofsErrors C07.LinkC03 C07.ProofsCaps C07.ProofsFlip C07.ProofsFlipSet C07.LinkC04.
+  C07.ProofsErrors C07.LinkC03 C07.ProofsCaps C07.ProofsFlip C07.ProofsFlipSet C07.LinkC04 C07.ProofsShape.
 Import ListNotations.
 Open Scope R_scope.
 
@@ -568,6 +568,24 @@ Theorem C07_base_vectors_outcomes : forall surfs : list rsurf,
     hexLatticeBaseVectors RS surfs = Err ELoop)).
 Proof. exact base_vectors_outcomes. Qed.
 
+(* ANY six or eight planes on which hexSortSides accepted six intersections: the
+   outcome is decided by the SHAPE of the dictionary (some_keys adj = the pairs
+   that hold a line, one of the 924 six-subsets of the twelve pairs of different
+   groups): no closed tour of the six positions -> the while loop never ends
+   (unless a projection divides by zero first); a closed tour -> base vectors
+   (unless a projection divides by zero).  Together with C07_sort_sides_outcomes
+   this decides the outcome of every plane list from parallelism, the number of
+   accepted pairs, their shape and the projection denominators. *)
+Theorem C07_base_vectors_by_shape : forall (surfs : list rsurf) (adj : adjacency rline),
+  List.length surfs = 6%nat \/ List.length surfs = 8%nat ->
+  hexSortSides RS (firstn 6 surfs) = Ok adj ->
+  In (some_keys adj) (sublists 6 cross_pairs) /\
+  (closed_tour (some_keys adj) = false ->
+     hexLatticeBaseVectors RS surfs = Err ELoop \/ hexLatticeBaseVectors RS surfs = Err EZeroDiv) /\
+  (closed_tour (some_keys adj) = true ->
+     (exists vs, hexLatticeBaseVectors RS surfs = Ok vs) \/ hexLatticeBaseVectors RS surfs = Err EZeroDiv).
+Proof. exact base_vectors_by_shape. Qed.
+
 (* ---------- link with C04 (coordinate transformations) ---------- *)
 
 (* A hexagonal prism under TRCL / a TRn on its plane cards.  moved_surfs o b is
@@ -624,8 +642,8 @@ Print Assumptions C07_family_base_vectors.
 
 (* error behaviour outside the family of the main theorem *)
 Theorem C07_family_errors :
-  ltac:(let t := type of (conj C07_base_vectors_wrong_count (conj C07_intersection_error_iff (conj C07_sort_sides_outcomes (conj C07_base_vectors_parallel_planes (conj C07_collinear_sides_parallel (conj C07_caps_parallel_to_axis (conj C07_flipped_sense_lattice_error (conj C07_flipped_set_lattice_error C07_base_vectors_outcomes)))))))) in exact t).
-Proof. exact (conj C07_base_vectors_wrong_count (conj C07_intersection_error_iff (conj C07_sort_sides_outcomes (conj C07_base_vectors_parallel_planes (conj C07_collinear_sides_parallel (conj C07_caps_parallel_to_axis (conj C07_flipped_sense_lattice_error (conj C07_flipped_set_lattice_error C07_base_vectors_outcomes)))))))). Qed.
+  ltac:(let t := type of (conj C07_base_vectors_wrong_count (conj C07_intersection_error_iff (conj C07_sort_sides_outcomes (conj C07_base_vectors_parallel_planes (conj C07_collinear_sides_parallel (conj C07_caps_parallel_to_axis (conj C07_flipped_sense_lattice_error (conj C07_flipped_set_lattice_error (conj C07_base_vectors_outcomes C07_base_vectors_by_shape))))))))) in exact t).
+Proof. exact (conj C07_base_vectors_wrong_count (conj C07_intersection_error_iff (conj C07_sort_sides_outcomes (conj C07_base_vectors_parallel_planes (conj C07_collinear_sides_parallel (conj C07_caps_parallel_to_axis (conj C07_flipped_sense_lattice_error (conj C07_flipped_set_lattice_error (conj C07_base_vectors_outcomes C07_base_vectors_by_shape))))))))). Qed.
 Print Assumptions C07_family_errors.
 
 (* statements that import another property (C06: develop_lattice; C03: rhp) *)
